@@ -36,8 +36,10 @@ type Scenario struct {
 	Host     string
 	App      string
 	Remotes  [][2]string // name, password
-	Replies  []Reply
-	Timeout  time.Duration // caller's context
+	// further login record fields; "" keeps the harness default, "\x00empty" sets the empty string
+	HostProc, ServName, Language, CharSet string
+	Replies                               []Reply
+	Timeout                               time.Duration // caller's context
 	// history
 	Warmup      string // "", "plain", "encrypted": a complete valid login on another connection first
 	ReuseConfig bool   // reuse the warm-up's LoginConfig object
@@ -166,6 +168,18 @@ func one(sc Scenario, shared *tds.LoginConfig) (res Result, conf *tds.LoginConfi
 			conf.AppName = sc.App
 		}
 		conf.Hostname = sc.Host
+		for _, o := range []struct {
+			v string
+			p *string
+		}{{sc.HostProc, &conf.HostProc}, {sc.ServName, &conf.ServName}, {sc.Language, &conf.Language}, {sc.CharSet, &conf.CharSet}} {
+			switch o.v {
+			case "":
+			case "\x00empty":
+				*o.p = ""
+			default:
+				*o.p = o.v
+			}
+		}
 		for _, r := range sc.Remotes {
 			conf.RemoteServers = append(conf.RemoteServers, tds.LoginConfigRemoteServer{Name: r[0], Password: r[1]})
 		}
